@@ -111,18 +111,22 @@ def _run_one(job):
 def real_traces(groups, rng, tier, modes=('keygen', 'std', 'safe'), kms=None):
     kms = kms or all_kms()
     jobs = []
-    variants = [dict(serializer='pickle', algorithm='md5'), dict(serializer=None, algorithm='sha1'),
-                dict(serializer='dill', algorithm='md5')]
+    # serializer of picklemap, algorithm of hashmap (hashlib also accepts spellings such as 'SHA256' that are not listed
+    # in algorithms_available), and the sentinel object when one is configured (klepto's own, or a falsy user value)
+    variants = [dict(serializer='pickle', algorithm='md5'), dict(serializer=None, algorithm='sha1', sentval='empty'),
+                dict(serializer='dill', algorithm='md5', sentval='zero'), dict(serializer='pickle', algorithm='SHA256', sentval='unit'),
+                dict(serializer=None, algorithm='sha3_256'), dict(serializer='dill', algorithm='MD5', sentval='bytes')]
     for gi, g in enumerate(groups):
         for n, km in enumerate(kms):
-            if tier != 'thorough' and len(kms) > 12 and (n + gi) % 3 != 0 and not (km['flat'] and not km['typed'] and not km['sentinel']):
+            if tier != 'thorough' and len(kms) > 12 and (n + gi) % 3 != 0 and not (km['flat'] and not km['typed'] and not km['sentinel']) \
+                    and not (g.get('allkms') and km['flat']):
                 continue       # quick tier: the four plain flat keymaps always, a rotating third of the others
             for mode in modes:
                 if mode in ('std', 'safe') and km['enc'] == 'raw' and not km['flat']:
                     continue       # (args, kwds) with a dict inside is unhashable: unusable as a dict key by design
                 if mode == 'safe' and (tier != 'thorough' and n % 4 != g['sid'] % 4):
                     continue
-                v = variants[(n + g['sid']) % 3]
+                v = variants[(n + gi + g['sid']) % len(variants)]
                 jobs.append((g, km, mode, v))
                 # the same group as a functools.partial that binds the defaulted keyword-only parameter, as a method
                 # (ignore=('self', ...)), and with a single-element ignore specification passed bare
@@ -158,7 +162,7 @@ def signature(t, v, pid):
 
 def finish(rep, pid, tier, mcs, cat_states, traces, extra_cov=None, assumptions=()):
     strip = [{k: t[k] for k in ('sig', 'ign', 'km', 'cached', 'events')} for t in traces]
-    verdicts, st = common.validate_traces('KeyTrace', strip, [pid], per_slice=60)
+    verdicts, st = common.validate_traces('KeyTrace', strip, [pid], per_slice=max(8, len(strip) // common.NCPU + 1))
     oracle = 0
     for t, v in zip(traces, verdicts):
         if v is None:
@@ -220,7 +224,7 @@ def deviation_runs(rep, pid, work, mcs, groups_extra):
     return devs
 
 
-def check_generic(pid, tier, igns, modes=('keygen', 'std', 'safe'), pvals=None):
+def check_generic(pid, tier, igns, modes=('keygen', 'std', 'safe'), pvals=None, extras=()):
     rep = common.Report(pid, tier)
     work = common.scratch('key')
     rng = random.Random(common.seed() + int(pid[1:]))
@@ -241,6 +245,15 @@ def check_generic(pid, tier, igns, modes=('keygen', 'std', 'safe'), pvals=None):
     devs = deviation_runs(rep, pid, work, mcs, extra)
     seen = {(g['sid'], g['iid']) for g in groups}
     groups += [g for g in extra if (g['sid'], g['iid']) not in seen]
+    # small focused catalogues (their groups meet every flat keymap configuration, also in the quick tier)
+    for over in extras:
+        c2 = dict(base_consts(tier, igns), Deviations=set())
+        c2.update(over)
+        gx, stx = tlc_catalogue(c2, work)
+        cat_states += stx
+        for g in gx:
+            g['allkms'] = True
+        groups += gx
     traces = real_traces(groups, rng, tier, modes)
     return finish(rep, pid, tier, mcs, cat_states, traces, {'named_deviations': devs, 'groups': len(groups)})
 
@@ -250,7 +263,10 @@ def check_C09(tier):
 
 
 def check_C10(tier):
-    return check_generic('C10', tier, {0}, pvals={1, 2, 3, 4, 5, 7} if tier == 'thorough' else {1, 2, 3, 7})
+    # extra: a positional string equal to a keyword NAME on signatures whose key keeps positionals (f('x', 1) vs f(x=1)):
+    # without a sentinel the flat keys coincide by design, with any sentinel object they must differ
+    return check_generic('C10', tier, {0}, pvals={1, 2, 3, 4, 5, 7} if tier == 'thorough' else {1, 2, 3, 7},
+                         extras=[dict(SigIds={28, 29}, PVals={1, 6}, KwNames={'x', 'z'}, MAXP=2, MAXK=1)])
 
 
 def check_C11(tier):
@@ -297,15 +313,19 @@ def check_C17(tier):
     kms = [k for k in all_kms() if not (k['enc'] == 'raw' and not k['flat'])]
     variants = [dict(serializer='pickle', algorithm='md5'), dict(serializer=None, algorithm='sha1'),
                 dict(serializer='dill', algorithm='sha256'), dict(serializer='dill-module', algorithm='md5')]
+    # named algorithms in spellings that hashlib accepts although algorithms_available does not list them; falsy sentinels
+    more = [dict(serializer='pickle', algorithm='SHA256', sentval='empty'), dict(serializer=None, algorithm='MD5', sentval='zero'),
+            dict(serializer='dill', algorithm='sha3_256', sentval='unit')]
+    rot = variants[:3] + more
     items = []
-    for g in groups:
+    for gi, g in enumerate(groups):
         for n, km in enumerate(kms):
-            items.append({'group': g, 'km': km, 'variant': variants[(n + g['sid']) % 3]})
+            items.append({'group': g, 'km': km, 'variant': rot[(n + gi + g['sid']) % len(rot)]})
     for g in g2:
         for n, km in enumerate(kms):
             if km['typed'] and km['sentinel']:
                 continue
-            for v in (variants if km['enc'] == 'pickle' else [variants[n % 3]]):
+            for v in (variants if km['enc'] == 'pickle' else [rot[n % len(rot)]]):
                 if km['enc'] == 'pickle' and v['serializer'] in ('pickle', None) and not thorough and n % 2:
                     continue
                 items.append({'group': g, 'km': km, 'variant': v, 'objects': True})
